@@ -110,7 +110,7 @@ class Converter:
     @returnNoneIfArgNone
     def values2positions(self, values: Optional[list]) -> Optional[list]:
         positions_temp = []
-        values_np = np.array(values)
+        values_np = np.array(values).reshape(-1, self.n_dimensions)
 
         for n, space_dim in enumerate(self.search_space_values):
             values_1d = values_np[:, n]
@@ -126,7 +126,7 @@ class Converter:
     @returnNoneIfArgNone
     def positions2values(self, positions: Optional[list]) -> Optional[list]:
         values = []
-        positions_np = np.array(positions)
+        positions_np = np.array(positions, dtype=int).reshape(-1, self.n_dimensions)
 
         for n, space_dim in enumerate(self.search_space_values):
             pos_1d = positions_np[:, n]
